@@ -88,6 +88,11 @@ impl Next<f64> for EfficiencyRatio {
             previous = *n;
         }
 
+        // A flat window has no volatility (and no price change): avoid 0/0.
+        if volatility == 0.0 {
+            return 0.0;
+        }
+
         (first - input).abs() / volatility
     }
 }
